@@ -174,14 +174,27 @@ class AObjProxy:
 
 
 class ClassRef:
+    def __eq__(self, o: Any) -> bool:  # type: ignore[override]
+        return isinstance(o, ClassRef) and o.ci is self.ci
+
+    def __hash__(self) -> int:
+        return hash(self.ci.qual)
+
     def __init__(self, ci: ClassInfo) -> None:
         self.ci = ci
 
 
 class FuncRef:
-    def __init__(self, fi: FuncInfo, attrs: Optional[dict[str, Any]] = None) -> None:
+    def __init__(self, fi: FuncInfo, attrs: Optional[dict[str, Any]] = None, raw: bool = False) -> None:
         self.fi = fi
         self.attrs: dict[str, Any] = attrs if attrs is not None else {}
+        self.raw = raw           # the function body itself, below its decorators
+
+
+class Dispatcher:
+    """functools.singledispatch / singledispatchmethod object of the function `base`."""
+    def __init__(self, base: FuncInfo, method: bool) -> None:
+        self.base, self.method = base, method
 
 
 class BoundMethod:
@@ -477,19 +490,21 @@ class Interp:
             "math.prod": prod,
             "itertools.combinations": lambda xs, k: iter(list(_it.combinations(list(self.iterate(xs)), k))),
             "itertools.product": lambda *xs: iter(list(_it.product(*[list(self.iterate(x)) for x in xs]))),
-            "itertools.chain": lambda *xs: iter([y for x in xs for y in self.iterate(x)]),
+            "itertools.chain": lambda *xs: _it.chain(*[self.iterate(x) for x in xs]),     # lazy: an operand may be endless
+            "itertools.count": lambda start=0, step=1: _it.count(start, step),
+            "itertools.cycle": lambda xs: _it.cycle(list(self.iterate(xs))),
             "functools.reduce": reduce,
             "itertools.groupby": groupby,
             "itertools.permutations": lambda xs, k=None: iter(list(_it.permutations(list(self.iterate(xs)), k))),
             "itertools.accumulate": lambda xs, f=None: iter(list(_acc(self, xs, f))),
-            "itertools.islice": lambda xs, *a: iter(list(_it.islice(list(self.iterate(xs)), *a))),
+            "itertools.islice": lambda xs, *a: _it.islice(iter(self.iterate(xs)), *a),
             "itertools.zip_longest": lambda *xs, fillvalue=None: iter(list(_it.zip_longest(*[list(self.iterate(x)) for x in xs], fillvalue=fillvalue))),
-            "itertools.repeat": lambda x, k: [x] * k,
+            "itertools.repeat": lambda x, k=None: iter([x] * k) if k is not None else _it.repeat(x),
             "itertools.starmap": lambda f, xs: iter([self.apply_value(f, list(self.iterate(a)), {}, ast.Constant(value=None), "", None) for a in self.iterate(xs)]),
-            "itertools.takewhile": lambda f, xs: iter(list(_it.takewhile(lambda x: self.truth(self._apply(f, x)), list(self.iterate(xs))))),
+            "itertools.takewhile": lambda f, xs: _it.takewhile(lambda x: self.truth(self._apply(f, x)), iter(self.iterate(xs))),
             "itertools.dropwhile": lambda f, xs: iter(list(_it.dropwhile(lambda x: self.truth(self._apply(f, x)), list(self.iterate(xs))))),
             "itertools.filterfalse": lambda f, xs: iter([x for x in self.iterate(xs) if not self.truth(self._apply(f, x) if f is not None else x)]),
-            "itertools.chain.from_iterable": lambda xs: iter([y for x in self.iterate(xs) for y in self.iterate(x)]),
+            "itertools.chain.from_iterable": lambda xs: _it.chain.from_iterable(map(self.iterate, self.iterate(xs))),
             "functools.partial": partial,
             "statistics.mean": mean,
             "statistics.median": median,
@@ -503,10 +518,16 @@ class Interp:
 
     # -- entry -------------------------------------------------------------------------------
     def call(self, fi: FuncInfo, args: list[Any], kwargs: Optional[dict[str, Any]] = None,
-             skip_native: bool = False) -> Any:
+             skip_native: bool = False, raw: bool = False) -> Any:
         kwargs = kwargs or {}
         if fi.qual in self.native and not skip_native:
             return self.native[fi.qual](*args, **kwargs)
+        if not raw and fi.node.decorator_list:
+            w = self.wrapper_of(fi)
+            if isinstance(w, Dispatcher):
+                return self.dispatch(w, args, kwargs)
+            if w is not None:
+                return self.apply_value(w, args, kwargs, fi.node, loc(fi.unit.path, fi.node), fi)
         self.called.add(fi.qual)
         memo_key = None
         if fi.node.decorator_list and any(ast.unparse(d).split("(")[0] in _CACHE_DECORATORS
@@ -755,7 +776,11 @@ class Interp:
         if isinstance(st, ast.For):
             it = self.iterate(self.eval(st.iter, env, fi))
             broke = False
+            n_iter = 0
             for x in it:
+                n_iter += 1
+                if n_iter > 200_000:
+                    raise AnalysisError("ABSINT", "for-loop bound exceeded")
                 self.assign(st.target, x, env, fi)
                 try:
                     self.exec_block(st.body, env, fi)
@@ -911,7 +936,7 @@ class Interp:
                 if obj._f.get("_frozen"):
                     raise AbsMutation(f"store into {obj._cls}.{t.attr} ({src(t)})",
                                       loc(fi.unit.path, t) if fi else "")
-                obj._f[t.attr] = v
+                self.setattr_obj(obj, t.attr, v, loc(fi.unit.path, t) if fi else "")
             elif is_native(obj):
                 setattr(obj, t.attr, v)
             elif isinstance(obj, ClassRef):
@@ -1034,10 +1059,10 @@ class Interp:
                     d[self.canon_key(d, kk)] = self.eval(v2, env, fi)
             return d
         if isinstance(n, (ast.ListComp, ast.SetComp, ast.GeneratorExp)):
-            out: list[Any] = []
-            self._comp(n.generators, 0, self._comp_env(env), fi, lambda e: out.append(self.eval(n.elt, e, fi)))
             if isinstance(n, ast.GeneratorExp):
-                return iter(out)             # one-shot, like the generator it stands for (evaluated eagerly)
+                # lazy and one-shot, like the generator it stands for (its source may be endless)
+                return (self.eval(n.elt, e, fi) for e in self._comp_iter(n.generators, 0, self._comp_env(env), fi))
+            out: list[Any] = [self.eval(n.elt, e, fi) for e in self._comp_iter(n.generators, 0, self._comp_env(env), fi)]
             return set(self.dedupe(out)) if isinstance(n, ast.SetComp) else out
         if isinstance(n, ast.DictComp):
             dd: dict[Any, Any] = {}
@@ -1119,6 +1144,20 @@ class Interp:
         e = dict(env)
         e["__comp_outer__"] = env
         return e
+
+    def _comp_iter(self, gens: list[ast.comprehension], i: int, env: dict[str, Any], fi: Optional[FuncInfo]) -> Any:
+        if i == len(gens):
+            yield env
+            return
+        g = gens[i]
+        n_ = 0
+        for x in self.iterate(self.eval(g.iter, env, fi)):
+            n_ += 1
+            if n_ > 200_000:
+                raise AnalysisError("ABSINT", "comprehension bound exceeded (endless source consumed whole?)")
+            self.assign(g.target, x, env, fi)
+            if all(self.truth(self.eval(c, env, fi)) for c in g.ifs):
+                yield from self._comp_iter(gens, i + 1, env, fi)
 
     def _comp(self, gens: list[ast.comprehension], i: int, env: dict[str, Any],
               fi: Optional[FuncInfo], emit: Callable[[dict[str, Any]], None]) -> None:
@@ -1419,6 +1458,10 @@ class Interp:
                         return BoundMethod(obj.obj, c.methods[attr])
             return SuperProxy(obj.obj, obj.fi)      # base outside the program model: no-op call
         if isinstance(obj, AObj):
+            if self.pm.has_cls(obj._cls) and attr not in ("_frozen", "_complete"):
+                pm_ = self.pm.method(self.pm.cls(obj._cls), attr)
+                if pm_ is not None and "property" in pm_.decorators():
+                    return self.call(pm_, [obj])         # a property (data descriptor) comes before the instance's own fields
             if attr in obj._f:
                 obj._reads.add(attr)
                 return obj._f[attr]
@@ -1486,6 +1529,15 @@ class Interp:
                 return obj.value
             if attr == "name":
                 return obj.name
+            if self.pm.has_cls(obj.cls):
+                eci = self.pm.cls(obj.cls)
+                m = self.pm.method(eci, attr)
+                if m is not None and not m.unit.env:
+                    if "property" in m.decorators():
+                        return self.call(m, [obj])
+                    if m.is_static():
+                        return FuncRef(m)
+                    return BoundMethod(obj, m)
             raise AnalysisError("ABSINT", f"enum attribute {attr} outside fragment", where)
         if isinstance(obj, ModuleRef):
             if obj.name == "string" and attr in ("ascii_letters", "digits", "ascii_lowercase",
@@ -1578,8 +1630,8 @@ class Interp:
             return self.call(f.fi, [f.obj] + args, kwargs)
         if isinstance(f, FuncRef):
             if f.fi.cls is not None and not f.fi.is_static() and f.fi.is_classmethod():
-                return self.call(f.fi, [ClassRef(f.fi.cls)] + args, kwargs)
-            return self.call(f.fi, args, kwargs)
+                return self.call(f.fi, [ClassRef(f.fi.cls)] + args, kwargs, raw=f.raw)
+            return self.call(f.fi, args, kwargs, raw=f.raw)
         if isinstance(f, Lambda):
             e2 = dict(f.env)
             e2.update(self._bind_local(f.node.args, "<lambda>", f.defaults, args, kwargs))
@@ -1658,7 +1710,7 @@ class Interp:
                     res.reverse()
                 obj[:] = res
                 return None
-            if isinstance(obj, (set, dict)) and not isinstance(obj, TaggedList):
+            if isinstance(obj, (set, frozenset, dict)) and not isinstance(obj, TaggedList):
                 # hashed containers compare their keys with the keys' own __hash__/__eq__
                 if attr in ("get", "setdefault", "pop", "add", "discard", "remove") and args \
                         and not (attr == "pop" and isinstance(obj, set)):
@@ -1675,7 +1727,7 @@ class Interp:
                     if not kwargs:
                         return None
                 elif attr in ("union", "difference", "intersection", "issubset", "symmetric_difference",
-                              "issuperset", "isdisjoint") and isinstance(obj, set) and \
+                              "issuperset", "isdisjoint") and isinstance(obj, (set, frozenset)) and \
                         any(self._has_abs(x) for x in obj):
                     others = [list(self.iterate(a)) for a in args]
                     mem = lambda x, xs: any(self._eq(x, y) for y in xs)  # noqa: E731
@@ -1692,7 +1744,7 @@ class Interp:
                     if attr == "isdisjoint":
                         return not any(mem(x, others[0]) for x in obj)
                     return {x for x in obj if not mem(x, others[0])} | {y for y in self.dedupe(others[0]) if not mem(y, obj)}
-            if isinstance(obj, (list, set, dict, tuple)) and attr in (
+            if isinstance(obj, (list, set, dict, tuple, frozenset)) and attr in (
                     "append", "extend", "add", "update", "pop", "insert", "keys", "values",
                     "items", "get", "index", "count", "copy", "remove", "sort", "reverse", "clear",
                     "setdefault", "discard", "union", "difference", "intersection", "issubset",
@@ -1888,6 +1940,14 @@ class Interp:
             v = args[0]
             if isinstance(v, AObj) and self.pm.has_cls(v._cls):
                 return ClassRef(self.pm.cls(v._cls))
+            if is_native(v) and self.pm.has_cls(type(v).__name__):
+                return ClassRef(self.pm.cls(type(v).__name__))     # a class of the environment (e.g. a parser context)
+            if isinstance(v, tuple) and hasattr(v, "_fields") and self.pm.has_cls(type(v).__name__):
+                return ClassRef(self.pm.cls(type(v).__name__))
+            if isinstance(v, EnumVal) and self.pm.has_cls(v.cls):
+                return ClassRef(self.pm.cls(v.cls))
+            if is_native(v) or isinstance(v, (AObj, Lambda, LocalFunc, FuncRef, BoundMethod)):
+                raise AnalysisError("ABSINT", f"type() of {type(v).__name__} outside fragment", where)
             return ("builtin", type(v).__name__)
         if name == "iter":
             if hasattr(args[0], "__next__"):
@@ -1917,7 +1977,7 @@ class Interp:
             if isinstance(v, AObj):
                 if v._f.get("_frozen"):
                     raise AbsMutation(f"setattr({v._cls}, {a!r})", where)
-                v._f[a] = val
+                self.setattr_obj(v, a, val, where)
                 return None
             raise AnalysisError("ABSINT", "setattr outside fragment", where)
         if name == "getattr":
@@ -2121,6 +2181,119 @@ class Interp:
             a = fi.node.args
             return fn(*[env[x.arg] for x in a.posonlyargs + a.args])
         return stub
+
+    _STRUCTURAL_DECORATORS = ("property", "staticmethod", "classmethod", "abstractmethod", "abc.abstractmethod",
+                              "total_ordering", "functools.total_ordering", "overload", "typing.overload",
+                              "cached_property", "functools.cached_property", "final", "typing.final", "override",
+                              "typing.override")
+
+    def wrapper_of(self, fi: FuncInfo) -> Any:
+        """What the name of a decorated function is bound to: None when it is the function itself (decorators that
+        only mark it or that the evaluator models elsewhere), a Dispatcher for singledispatch, otherwise the value
+        the decorators return (a wrapper closure). Decorators run once per process, like at import time."""
+        store = GLOBAL_STATE["class_attrs"]
+        key = ("wrapper", fi.qual)
+        if key in store:
+            return store[key]
+        store[key] = None                      # recursion guard while the decorators are evaluated
+        base = FuncRef(fi, self.decorated_attrs(fi) if False else {}, raw=True)
+        cur: Any = base
+        for d in reversed(fi.node.decorator_list):
+            txt = ast.unparse(d)
+            head = txt.split("(")[0]
+            if head in self._STRUCTURAL_DECORATORS or head in _CACHE_DECORATORS or head.endswith((".setter", ".deleter", ".getter")):
+                continue
+            if head.endswith(".register"):
+                continue                        # an implementation registered with a dispatcher (found from there)
+            if head in ("singledispatch", "functools.singledispatch"):
+                cur = Dispatcher(fi, False)
+                continue
+            if head in ("singledispatchmethod", "functools.singledispatchmethod"):
+                cur = Dispatcher(fi, True)
+                continue
+            if head in ("wraps", "functools.wraps"):
+                continue
+            if head in ("dataclass", "dataclasses.dataclass"):
+                continue
+            try:
+                dec = self.eval(d, {}, fi)
+            except AnalysisError as exc:
+                raise AnalysisError("ABSINT", f"decorator @{txt} of {fi.qual} outside fragment ({exc.reason})",
+                                    loc(fi.unit.path, fi.node)) from exc
+            res = self.apply_value(dec, [cur], {}, d, loc(fi.unit.path, fi.node), fi)
+            if isinstance(res, FuncRef) and res.fi is fi:
+                continue                        # the decorator marked the function and returned it
+            cur = res
+        store[key] = None if cur is base else cur
+        return store[key]
+
+    def dispatch(self, dsp: Dispatcher, args: list[Any], kwargs: dict[str, Any]) -> Any:
+        """Call through a singledispatch object: the implementation registered for the most specific class of the
+        dispatch argument, else the base function."""
+        base = dsp.base
+        pos = 1 if dsp.method else 0
+        if len(args) <= pos:
+            raise AbsRaise(f"TypeError: {base.name} requires at least 1 positional argument")
+        arg = args[pos]
+        scope = base.cls.all_defs if base.cls is not None else self.pm.module_defs.get(base.unit.mod, [])
+        cands: list[tuple[int, FuncInfo]] = []
+        for impl in scope:
+            for d in impl.node.decorator_list:
+                txt = ast.unparse(d)
+                if not txt.split("(")[0] == f"{base.name}.register":
+                    continue
+                if isinstance(d, ast.Call) and d.args:
+                    texpr: Optional[ast.expr] = d.args[0]
+                else:
+                    ps = impl.node.args.posonlyargs + impl.node.args.args
+                    texpr = ps[pos].annotation if len(ps) > pos else None
+                if texpr is None:
+                    raise AnalysisError("ABSINT", f"{impl.qual}: registered without a type", loc(impl.unit.path, impl.node))
+                tval = self.eval(texpr, {}, impl)
+                types = list(tval) if isinstance(tval, tuple) and not (len(tval) == 2 and tval[0] in ("builtin", "exc")) else [tval]
+                for tv in types:
+                    rank = self._specificity(arg, tv)
+                    if rank is not None:
+                        cands.append((rank, impl))
+        if cands:
+            best = min(r for r, _ in cands)
+            chosen = [f_ for r, f_ in cands if r == best]
+            return self.call(chosen[-1], args, kwargs, raw=True)      # a later registration for the same class wins
+        return self.call(base, args, kwargs, raw=True)
+
+    def _specificity(self, v: Any, t: Any) -> Optional[int]:
+        """Distance of class t in the MRO of v's class (0 = exact class), None when v is not an instance of t."""
+        if not self.builtin("isinstance", [v, t], {}, ast.Constant(value=None), ""):
+            return None
+        if isinstance(t, ClassRef):
+            if is_native(v) or (isinstance(v, tuple) and hasattr(v, "_fields")):
+                names = [c.__name__ for c in type(v).__mro__]
+                extra = list(getattr(v, "_isa", ()))
+                return names.index(t.ci.name) if t.ci.name in names else (len(names) + extra.index(t.ci.name) if t.ci.name in extra else 99)
+            if isinstance(v, AObj) and self.pm.has_cls(v._cls):
+                mro = [c.name for c in self.pm.mro(self.pm.cls(v._cls))]
+                return mro.index(t.ci.name) if t.ci.name in mro else 99
+            return 50
+        if isinstance(t, tuple) and len(t) == 2 and t[0] == "builtin":
+            py = _BUILTIN_TYPES.get(t[1])
+            if t[1] == "object":
+                return 1000
+            if py is not None and not isinstance(v, (AObj, OrdInt)):
+                return type(v).__mro__.index(py) if py in type(v).__mro__ else 99
+        return 60
+
+    def setattr_obj(self, obj: AObj, attr: str, v: Any, where: str = "") -> None:
+        """obj.attr = v with Python's rule: a property of the class decides (its setter, or AttributeError)."""
+        if self.pm.has_cls(obj._cls):
+            ci = self.pm.cls(obj._cls)
+            getter = self.pm.method(ci, attr)
+            if getter is not None and "property" in getter.decorators():
+                setter = self.pm.method(ci, attr + ".setter")
+                if setter is None:
+                    raise AbsRaise(f"AttributeError: property '{attr}' of '{obj._cls}' object has no setter", where)
+                self.call(setter, [obj, v])
+                return
+        obj._f[attr] = v
 
     def _bind_callable(self, f: Any, obj: Any) -> Any:
         fn = lambda *a, **k: self.apply_value(f, [obj] + list(a), dict(k), ast.Constant(value=None), "", None)  # noqa: E731
